@@ -16,6 +16,10 @@ for _i, _cls in ERRFLOW_CLASSES.items():
     if _i in CLAIMED:
         r_, t_, n_, k_ = CLAIMED[_i]
         CLAIMED[_i] = (r_, t_ + " " + (ERRFLOW % _cls), n_, k_ + ", frozen error-disposition table (def-use chains + CFG reachability per error-returning call)")
+for _i, _x in EXTRA8.items():
+    if _i in CLAIMED:
+        r_, t_, n_, k_ = CLAIMED[_i]
+        CLAIMED[_i] = (r_, t_ + " " + _x, n_, k_)
 for _i, _x in EXTRA.items():
     if _i in CLAIMED:
         r_, t_, n_, k_ = CLAIMED[_i]
